@@ -479,6 +479,11 @@ func (db *SingleBucketBackend) deleteObjectLocked(bucketName, objectName string)
 		return nil
 	}
 
+	if isDir(db.fs, filepath.FromSlash(objectName)) {
+		// the key is a prefix of other keys, not an object: nothing to delete
+		return nil
+	}
+
 	// S3 does not report an error when attemping to delete a key that does not exist, so
 	// we need to skip IsNotExist errors.
 	if err := db.fs.Remove(filepath.FromSlash(objectName)); err != nil && !os.IsNotExist(err) {
